@@ -570,8 +570,14 @@ fn parse_dist_header_with_cache<'a>(
     let flags_len = (num_atom_cache_refs as usize) / 2 + 1;
     let (mut input, flags) = take(flags_len)(input)?;
 
+    // The header flags follow the last reference's 4-bit field: they sit in the low nibble
+    // of the last byte for an even number of references, in the high nibble for an odd one.
     let long_atoms_flag_byte = flags[flags_len - 1];
-    let long_atoms = (long_atoms_flag_byte & 0x01) != 0;
+    let long_atoms = if num_atom_cache_refs % 2 == 0 {
+        (long_atoms_flag_byte & 0x01) != 0
+    } else {
+        (long_atoms_flag_byte & 0x10) != 0
+    };
 
     for i in 0..num_atom_cache_refs {
         let (new_input, internal_segment_index) = be_u8(input)?;
